@@ -328,6 +328,9 @@ func c17Event(serial, seqid uint32) []byte {
 	rm.EncodeField(msg, *l.Field("EventType"), rm.UVal(rm.U8, uint64(1+h%3)))
 	rm.EncodeField(msg, *l.Field("CardNumber"), rm.UVal(rm.U32, uint64(h|1)))
 	rm.EncodeField(msg, *l.Field("Door"), rm.UVal(rm.U8, uint64(1+h%4)))
+	for k, name := range []string{"Door1State", "Door2State", "Door3State", "Door4State", "Door1Button", "Door2Button", "Door3Button", "Door4Button"} {
+		rm.EncodeField(msg, *l.Field(name), rm.BoolVal(h>>uint(k+3)&1 == 1)) // the door maps of consecutive events differ
+	}
 	rm.EncodeField(msg, *l.Field("Timestamp"), rm.DateTimeVal(2024, 1+int(h%12), 1+int(h%28), int(h%24), int(h%60), int(h>>8%60)))
 	rm.EncodeField(msg, *l.Field("SystemDate"), rm.Val{K: rm.SysDate, Y: 2024, Mo: 1 + int(h%12), D: 1 + int(h%28)})
 	rm.EncodeField(msg, *l.Field("SystemTime"), rm.Val{K: rm.SysTime, H: int(h % 24), Mi: int(h % 60), S: int(h >> 8 % 60)})
